@@ -509,6 +509,11 @@ class List(BlockToken):
         matches = []
         while True:
             anchor = lines.get_pos()
+            if (leader is not None and next_marker is not None
+                    and not cls.same_marker_type(leader, next_marker[2])):
+                # the next item belongs to a new list: stop before reading it. (Reading it first and
+                # discarding the result afterwards makes nested lists take exponential time.)
+                break
             output, next_marker = ListItem.read(lines, next_marker)
             item_leader = output[3]
             if leader is None:
